@@ -41,7 +41,13 @@ def collect(h):
     for tag, cls in DIR_CLASSES:
         c = getattr(uri, cls)
         h.bytes("DIR_BASE_" + tag, c.BASE_STRING, "uri.py %s.BASE_STRING = %r" % (cls, c.BASE_STRING))
-        h.bytes("DIR_RE_" + tag, c.BASE_STRING_RE.pattern, "uri.py %s.BASE_STRING_RE.pattern" % cls)
+        # the anchored prefix pattern init_from_string searches with: the class attribute BASE_STRING_RE where the
+        # class declares one, else (a refactoring may derive it at run time) b'^' + BASE_STRING.  A class that no
+        # longer exists, or has no BASE_STRING, still fails the extraction loudly (AttributeError above).
+        if "BASE_STRING_RE" in vars(c) or hasattr(c, "BASE_STRING_RE"):
+            h.bytes("DIR_RE_" + tag, c.BASE_STRING_RE.pattern, "uri.py %s.BASE_STRING_RE.pattern" % cls)
+        else:
+            h.bytes("DIR_RE_" + tag, b"^" + c.BASE_STRING, "uri.py %s: no BASE_STRING_RE attribute; b'^' + BASE_STRING" % cls)
         h.bytes("DIR_INNER_" + tag, inner[c.INNER_URI_CLASS.__name__].encode(), "uri.py %s.INNER_URI_CLASS = %s" % (cls, c.INNER_URI_CLASS.__name__))
     h.bytes("ALLEGED_READONLY_PREFIX", uri.ALLEGED_READONLY_PREFIX, "uri.py")
     h.bytes("ALLEGED_IMMUTABLE_PREFIX", uri.ALLEGED_IMMUTABLE_PREFIX, "uri.py")
